@@ -6,7 +6,9 @@ validateExperiment so that the workflows the pinned code wrongly rejects can sti
 every case is one consumer component of such an instance; observed: the real
 ComponentSpecification.resolveArguments(unresolved=, unused=), the declared-reference list the
 real code iterates over (spellings), checkDataReferences() (accept / reject) and, for a sample,
-ComponentSpecification.command.arguments."""
+ComponentSpecification.command.arguments.  Sessions (explore_live): one consumer of one live graph resolved
+repeatedly through ComponentSpecification.resolveArguments, Job.resolveArguments, Job.command.arguments and
+ComponentSpecification.command.arguments while the files of its producers change (Args.ValueModel.resolve_on)."""
 import itertools
 import json
 import os
@@ -32,7 +34,14 @@ ASSUMPTIONS = [
     'argument strings come with the tokenisation of the code\'s own recogniser (regular expression of '
     'FlowIR.discover_reference_strings); every generated string is checked against that expression',
     'literal text holds no %(variable)s references and no [index] accesses (FlowIR.fill_in is then the identity); on an '
-    'instantiated experiment commandDetails["arguments"] is already interpolated, so resolveArguments never sees %(variable)s',
+    'instantiated experiment commandDetails["arguments"] is already interpolated, so resolveArguments never sees %(variable)s; '
+    'the same for the contents of the files read through :output references: they hold backslashes, regular-expression '
+    'group references, & $ % {} quotes (all put in verbatim), but no "%(name)s" and no "word[N]", which FlowIR.fill_in at '
+    'the end of resolveArguments interprets by design (<reference>[<index>] interpolation)',
+    'sessions (repeated resolution on one live graph): files of the producers / input files are rewritten, created, deleted or '
+    'replaced by a directory between two resolutions; all four entry points are called at every step; the file system given '
+    'to the model is walked from the instance just before the calls; Job.command.arguments is read without the shell '
+    'expansion of Command.commandLine',
     'only ref / output / copy references are generated (loopref / loopoutput need DoWhile placeholders); copy '
     'references are declared but never written in the arguments; no reference is declared twice',
     'instance paths are rewritten to /I before comparing (they contain no colon, so no spelling)',
@@ -40,16 +49,25 @@ ASSUMPTIONS = [
 HEADER = 'Require Import V.Lib.PyStr V.Args.Model.\nOpen Scope string_scope.'
 HEADER_V = 'Require Import V.Lib.PyStr V.Args.Model V.Args.ValueModel.\nOpen Scope string_scope.'
 # file parts of the value correspondence (as written: nothing is normalised by the code)
-VFILES = [None, 'o.txt', 'p.txt', 'A', 'missing.txt', 'sub', 'sub/', 'sub/./o.txt', 'sub//o.txt', 'o.txt/', 'sub/.', './o.txt']
+VFILES = [None, 'o.txt', 'p.txt', 'A', 'missing.txt', 'sub', 'sub/', 'sub/./o.txt', 'sub//o.txt', 'o.txt/', 'sub/.', './o.txt',
+          'e.txt']
 VMETHODS = ['ref', 'copy', 'link', 'output', 'copyout', 'extract']
-STDOUT_OF = {'A': '\n so \n\n', 'AB': '', 'BAB': 'x:y'}   # producers that have an out.stdout (all stages)
+STDOUT_OF = {'A': '\n so \n\n', 'AB': '', 'BAB': 'x:y',         # producers that have an out.stdout (all stages)
+             'BB': 'C:\\tmp\\new & \\1 %s\n', 'ABA': '$0 \\g<0> \\\\\n\n'}
 PADDED = ['\n lead\n', 'trail \n\n', '\n', ' ', 'a\r\n', '\tt\n \n']   # contents of <producer>/p.txt (by name index)
 
 NAMES = ['A', 'B', 'AB', 'BA', 'AA', 'BB', 'ABA', 'BAB']
 STAGES = [0, 1, 2]
-FILES = [None, 'o.txt', 'A', 'BA', 'missing.txt']
-DATA = ['A', 'BA', 'x.txt']
+FILES = [None, 'o.txt', 'A', 'BA', 'missing.txt', 'e.txt']
+DATA = ['A', 'BA', 'x.txt', 'e.dat']
 CONTENTS = ['42', 'v1.0', 'x y', 'l1\n\n', '', 'see B:ref', 'A:ref', 'a\nb', 'path/to', '7', 'stage0.A:ref x', 'BA']
+# contents of <producer>/e.txt (and data/e.dat): ordinary text that is special to SOME substitution mechanism - regular
+# expression replacement templates (backslash escapes, group references), '&' of sed, '$' of string.Template / the
+# shell, '%' of printf-style formatting, '{}' of str.format, quotes.  The value of an :output reference is put in verbatim.
+# (Not here: '%(name)s' and 'x[0]', which FlowIR.fill_in at the end of resolveArguments interprets - see ASSUMPTIONS.)
+SPECIALS = ['s/\\s+/ /g\n', 'C:\\new\\table\\run1', '\\1 \\g<0> \\\\', 'a&b $HOME ${x} $1', '100% %d %s %%\n',
+            '\\alpha=0.5 \\\\ \\beta=\\"x\\"\n', '&', '\\', "it's `x` $(y) {0} {n}", '\\g<1>\\0', '^(a|b)*\\.txt$',
+            '\\n\\t \\\n']
 SUBST = ('ref', 'output')
 METHODS = ['copy', 'link', 'ref', 'copyout', 'extract', 'output', 'loopref', 'loopoutput']
 
@@ -59,6 +77,10 @@ def content_of(stage, name, fil):
     """contents of the files the harness writes in the producers' working directories / data folder"""
     if fil == 'missing.txt':
         return None
+    if stage is None and name == 'e.dat':
+        return SPECIALS[3]
+    if fil == 'e.txt':
+        return SPECIALS[(stage * 8 + NAMES.index(name)) % len(SPECIALS)]
     si = 3 if stage is None else stage
     ni = (DATA.index(name) + 5) if stage is None else NAMES.index(name)
     return CONTENTS[(si * 7 + ni * 3 + FILES.index(fil) * 5) % len(CONTENTS)]
@@ -84,7 +106,7 @@ def r_value(r):
         return '/I/data/%s' % r['name']
     base = '/I/stages/stage%d/%s' % (r['stage'], r['name'])
     if r['method'] == 'output':
-        c = content_of(r['stage'], r['name'], r['file'])
+        c = content_of(r['stage'], r['name'], r['file']) if r['file'] else STDOUT_OF.get(r['name'])
         return '' if c is None else c.rstrip('\n')
     return base + ('/' + r['file'] if r['file'] else '')
 
@@ -128,7 +150,9 @@ def expected_unused(case):
 
 
 # ------------------------------------------------------------------ known-finding classes (on the input)
-def classes_of(case):
+def classes_of(case, value=None):
+    """value: the value a reference has (default: on the file system the harness writes, r_value)"""
+    value = value or r_value
     cls = []
     dec = case['declared']
     toks = [s for k, s in case['pieces'] if k == 'T']
@@ -153,7 +177,7 @@ def classes_of(case):
     for r in sub:
         if r['method'] == 'output':
             for q in sub:
-                if r_abs(q) in r_value(r) or r_rel(q) in r_value(r):
+                if r_abs(q) in value(r) or r_rel(q) in value(r):
                     hit = True
     if hit:
         cls.append('output_contents_contain_a_declared_spelling')
@@ -300,7 +324,7 @@ def gen_case(rng):
             st = rng.choice([s for s in STAGES if s <= stage] + [stage])
             name = rng.choice(pool)
             m = rng.choice(['ref'] * 7 + ['output'] * 2 + ['copy'])
-            fil = rng.choice([None, None, None, 'o.txt', 'A', 'BA']) if m != 'output' else rng.choice(FILES[1:])
+            fil = rng.choice([None, None, None, 'o.txt', 'A', 'BA']) if m != 'output' else rng.choice(FILES[1:] + [None])
             if m == 'ref' and rng.random() < 0.12:
                 # path-valued references whose file part is not normalised: the value is the producer directory
                 # joined with the file part AS WRITTEN (trailing separator, './' segments kept)
@@ -376,6 +400,24 @@ def corpus():
          [('L', '-x '), ('T', 'AB:ref'), ('L', ' --in='), ('T', 'stage0.A:ref'), ('L', '/f.txt '),
           ('T', 'stage1.A:ref'), ('L', ' n='), ('T', 'stage0.B/o.txt:output'), ('L', ' '), ('T', 'AB:ref')])
     return cs
+
+
+def special_contents_cases():
+    """systematic: for each of the 16 producers of stages 0-1, a stage-1 consumer that reads its e.txt (contents special
+    to some substitution mechanism, SPECIALS) through an :output reference, written twice, in every spelling the loader
+    accepts, next to a directory reference; and the same for the producers whose stdout holds such contents"""
+    out = []
+    for st in (0, 1):
+        for n in NAMES:
+            for fl in (['e.txt'] + ([None] if n in ('BB', 'ABA') else [])):
+                comp = mk_ref(1, 'B' if n != 'B' else 'A', None, 'ref', 1, relative=True)
+                for rel in ([False, True] if st == 1 else [False]):
+                    o = mk_ref(st, n, fl, 'output', 1, relative=rel)
+                    t = r_rel(o) if rel else r_abs(o)
+                    out.append({'stage': 1, 'declared': [o, comp],
+                                'pieces': [['L', 'sed -e '], ['T', t], ['L', ' '], ['T', r_rel(comp)], ['L', '/f --again='],
+                                           ['T', t]]})
+    return out
 
 
 def with_orders(case):
@@ -484,6 +526,247 @@ def explore_values(ctx, used_refs):
         ctx.count('distinct_references_of_the_cases', len(terms))
     finally:
         inst.close()
+
+
+# ------------------------------------------------------------------ repeated resolution on one live graph
+LIVE_NEW = ['-1.5', 'v2 final\n', '8\n', '', 'x y z\n\n', ' pad ', '-2.25 converged\n', '0'] + SPECIALS
+ENTRY_POINTS = ['ComponentSpecification.resolveArguments', 'Job.resolveArguments', 'Job.command.arguments',
+                'ComponentSpecification.command.arguments']
+
+
+def root_of(inst, r):
+    store = inst.exp.experimentGraph.rootStorage
+    if r['stage'] is None:
+        return store.resolvePath('data/%s' % r['name'])
+    return store.workingDirectoryForComponent(r['stage'], r['name'])
+
+
+def target_of(r):
+    """the path (relative to the producer's root, '' = the root itself) whose contents are the value of an output
+    reference"""
+    if r['stage'] is None:
+        return ''
+    return r['file'] if r['file'] else 'out.stdout'
+
+
+def gen_live_case(rng):
+    """a consumer with at least one :output reference (most of them to another stage or to an input file: what a
+    receiver is entitled to believe complete) + a schedule: between two resolutions the producers rewrite, create,
+    delete files, or put a directory where the file was"""
+    while True:
+        c = gen_case(rng)
+        if c is None or classes_of(c):
+            continue
+        outs = [r for r in c['declared'] if r['method'] == 'output']
+        if not outs or not any(r_abs(r) in [t for k, t in c['pieces'] if k == 'T'] or
+                               r_rel(r) in [t for k, t in c['pieces'] if k == 'T'] for r in outs):
+            continue
+        if all(r['stage'] == c['stage'] for r in outs) and rng.random() < 0.7:
+            continue
+        break
+    others = [r for r in c['declared'] if r['method'] != 'output' and r['stage'] is not None]
+    steps = [[]]
+    for _ in range(rng.choice([2, 3, 3, 4])):
+        muts = []
+        for _m in range(rng.choice([1, 1, 2])):
+            u = rng.random()
+            r = rng.choice(outs)
+            key = [r['stage'], r['name'], target_of(r)]
+            if u < 0.55:
+                muts.append(['write'] + key + [rng.choice(LIVE_NEW)])
+            elif u < 0.68:
+                muts.append(['delete'] + key)
+            elif u < 0.74:
+                muts.append(['mkdir'] + key)
+            elif u < 0.82:
+                pass                                                       # resolve again, nothing changed
+            elif u < 0.91 and others:
+                q = rng.choice(others)                                     # a path-valued reference: its value stays
+                muts.append([rng.choice(['delete', 'mkdir', 'write']), q['stage'], q['name'], q['file'] or 'sub']
+                            + ['new'])
+            else:
+                muts.append(['write', r['stage'] if r['stage'] is not None else 0,
+                             r['name'] if r['stage'] is not None else 'A', 'unrelated.txt', rng.choice(LIVE_NEW)])
+        steps.append([m[:5] if m[0] == 'write' else m[:4] for m in muts])
+    c['live'] = steps
+    return c
+
+
+def live_corpus():
+    """the session of Property.v (C10_nonvacuous) and its neighbours: file of another stage, input file, stdout of a
+    producer of the consumer's own stage; rewritten, deleted, turned into a directory, written back"""
+    cs = []
+    A1 = mk_ref(1, 'A', None, 'ref', 1, relative=False)
+    AB1 = mk_ref(1, 'AB', None, 'ref', 1, relative=True)
+    A0 = mk_ref(0, 'A', None, 'ref', 1)
+    o = mk_ref(0, 'B', 'o.txt', 'output', 1)
+    cs.append({'stage': 1, 'declared': [A1, AB1, A0, o],
+               'pieces': [['L', '--in='], ['T', 'stage0.A:ref'], ['L', '/f.txt n='], ['T', 'stage0.B/o.txt:output'],
+                          ['L', ' '], ['T', 'AB:ref'], ['L', ' '], ['T', 'stage1.A:ref']],
+               'live': [[], [['write', 0, 'B', 'o.txt', 's/\\s+/\\1&/g\n']], [['delete', 0, 'B', 'o.txt']],
+                        [['mkdir', 0, 'B', 'o.txt']], [['write', 0, 'B', 'o.txt', '42\n\n']], []]})
+    d = mk_ref(None, 'x.txt', None, 'output', 2)
+    so = mk_ref(2, 'A', None, 'output', 2, relative=True)
+    s0 = mk_ref(0, 'BAB', None, 'output', 2)
+    cs.append({'stage': 2, 'declared': [so, d, s0],
+               'pieces': [['L', 'run '], ['T', 'data/x.txt:output'], ['L', ' --mine '], ['T', 'A:output'], ['L', ' '],
+                          ['T', 'stage0.BAB:output'], ['L', ' again='], ['T', 'data/x.txt:output']],
+               'live': [[], [['write', None, 'x.txt', '', '-1.5\n'], ['write', 2, 'A', 'out.stdout', 'b\n']],
+                        [['write', 0, 'BAB', 'out.stdout', 'C:\\new\\1 &\n']], [['delete', None, 'x.txt', '']],
+                        [['write', None, 'x.txt', '', '7'], ['delete', 0, 'BAB', 'out.stdout']]]})
+    return cs
+
+
+class LiveFiles(object):
+    """applies the mutations of a schedule to the real instance directory and puts everything back afterwards"""
+
+    def __init__(self, inst):
+        self.inst = inst
+        self.saved = {}
+
+    def path(self, m):
+        root = root_of(self.inst, {'stage': m[1], 'name': m[2]})
+        return os.path.join(root, m[3]) if m[3] else root
+
+    @staticmethod
+    def state(p):
+        if os.path.isdir(p):
+            return ('D', sorted(os.listdir(p)))
+        if os.path.isfile(p):
+            with open(p, newline='') as f:
+                return ('F', f.read())
+        return ('N', None)
+
+    @staticmethod
+    def clear(p):
+        if os.path.isdir(p):
+            shutil.rmtree(p)
+        elif os.path.lexists(p):
+            os.remove(p)
+
+    def apply(self, m):
+        p = self.path(m)
+        assert p.startswith(self.inst.tmp + os.sep), p
+        if p not in self.saved:
+            st = self.state(p)
+            if st[0] == 'D' and st[1]:
+                return 'skipped'                   # never remove a directory that holds files
+            self.saved[p] = st
+        self.clear(p)
+        if m[0] == 'write':
+            with open(p, 'w', newline='') as f:
+                f.write(m[4])
+        elif m[0] == 'mkdir':
+            os.makedirs(p)
+        return m[0]
+
+    def restore(self):
+        for p, (kind, c) in self.saved.items():
+            self.clear(p)
+            if kind == 'F':
+                with open(p, 'w', newline='') as f:
+                    f.write(c)
+            elif kind == 'D':
+                os.makedirs(p)
+        self.saved = {}
+
+
+def live_value(inst, r):
+    """the reference's own value on the file system as it is NOW (None: resolving it is an error)"""
+    root = root_of(inst, r)
+    if r['method'] == 'output':
+        p = os.path.join(root, target_of(r)) if target_of(r) else root
+        if os.path.isdir(p):
+            return None
+        if not os.path.isfile(p):
+            return ''
+        with open(p, newline='') as f:
+            return f.read().rstrip('\n')
+    return inst.canon(root) + ('/' + r['file'] if r['file'] else '')
+
+
+def explore_live(ctx, cases):
+    """every case: one consumer of ONE live graph, resolved again and again (each time through all four entry points)
+    while the files of its producers change; each answer against the token-wise substitution with the values of the
+    file system of that moment (Python predicate) and against Args.ValueModel.resolve_on / spec_on (inside Coq)"""
+    if not cases:
+        return
+    t0 = time.time()
+    inst = Instance(cases)
+    terms, meta = [], []
+    try:
+        for i, case in enumerate(cases):
+            node = inst.exp.experimentGraph.graph.nodes['stage%d.c%d' % (case['stage'], i)]
+            spec, job = node['componentSpecification'], node['componentInstance']
+            entries = [spec.resolveArguments, job.resolveArguments, lambda: job.command.arguments,
+                       lambda: spec.command.arguments]
+            order = processing_order(case['declared'])
+            roots = []
+            for r in order:
+                if root_of(inst, r) not in roots:
+                    roots.append(root_of(inst, r))
+            srefs = clist([sref_of(inst, r)[0] for r in order])
+            ps = clist(['(%s %s)' % ('Tok' if k == 'T' else 'Lit', cstr(x)) for k, x in case['pieces']])
+            files = LiveFiles(inst)
+            wants, failed = [], False
+            try:
+                for k, muts in enumerate(case['live']):
+                    for m in muts:
+                        ctx.count('live_mutation_' + files.apply(m))
+                    vals = dict((r_abs(r), live_value(inst, r)) for r in case['declared'])
+                    value = lambda r: vals[r_abs(r)] or ''
+                    if any(v is None for v in vals.values()):
+                        want = 'E:DataReferenceInconsistencyError'
+                        ctx.count('live_step_raises')
+                    else:
+                        want = 'V' + ''.join((x if k2 == 'L' or denotation(case['stage'], case['declared'], x) is None
+                                              else value(denotation(case['stage'], case['declared'], x)))
+                                             for k2, x in case['pieces'])
+                    wants.append(want)
+                    fs = []
+                    for root in roots:
+                        fs.extend(listing(inst, root))
+                    got = []
+                    for e in entries:
+                        try:
+                            got.append('V' + inst.canon(e()))
+                        except Exception as ex:
+                            got.append('E:' + type(ex).__name__)
+                    ctx.count('live_resolutions', len(got))
+                    for name, g in zip(ENTRY_POINTS, got):
+                        if g != want and not failed:
+                            failed = True
+                            ctx.fail(case, 'resolution %d of a session on one live graph, through %s: the command line does '
+                                           'not show the values the references have on the file system of that moment '
+                                           '(got %r, expected %r)' % (k + 1, name, g[:200], want[:200]),
+                                     classes_of(case, value))
+                    # the model on the file system walked just before the calls; the entry points take turns
+                    g = got[k % len(got)] if len(set(got)) == 1 else [x for x in got if x != want][0]
+                    terms.append(cpair(cpair(cpair(srefs, ps), coq_fs(fs)), cstr(g if g[0] == 'V' else 'E')))
+                    meta.append((case, k, got))
+            finally:
+                files.restore()
+            changes = sum(1 for a, b in zip(wants, wants[1:]) if a != b)
+            ctx.case([case['stage'], [r['declared_as'] for r in case['declared']], case['pieces'], case['live']], changes >= 1)
+            ctx.count('live_cases')
+            ctx.count('live_answer_changes', changes)
+            if any(r['method'] == 'output' and r['stage'] != case['stage'] for r in case['declared']):
+                ctx.count('live_cases_output_of_other_stage_or_input_file')
+    finally:
+        inst.close()
+    t1 = time.time()
+    bad = ctx.model_mismatches(HEADER_V, terms, 'check_live', chunk=max(40, min(200, -(-len(terms) // common.NPROC))),
+                               name='live')
+    ctx.extra.setdefault('phase_s', {}).update({'live_implementation': round(t1 - t0, 1),
+                                                'live_model': round(time.time() - t1, 1)})
+    for k, i in enumerate(bad):
+        case, step, got = meta[i]
+        m = ctx.model_eval(HEADER_V, 'let c := %s in (resolve_on (snd (fst c)) (fst (fst (fst c))) (flatten (snd (fst (fst c)))), '
+                                     'separated_onb (snd (fst c)) (fst (fst (fst c))) (snd (fst (fst c))))' % terms[i]) if k < 3 else ''
+        ctx.disagree(case, {'resolution': step + 1, 'answers': got}, m,
+                     'C10 repeated resolution on one live graph (resolveArguments / Job.resolveArguments / Job.command.arguments '
+                     'after the files changed) vs Args.ValueModel.resolve_on the file system of that moment; = spec_on where '
+                     'separated_onb holds')
 
 
 # ------------------------------------------------------------------ running
@@ -613,7 +896,12 @@ def run(ctx):
                 'the norm; (a) exhaustive: every ordered pair of references to the 16 producers of stages 0-1, every accepted '
                 'spelling, both token orders; (b) random reference sets (<= 4 references; ref / output / copy; files; direct '
                 'references) x random tokenised argument strings, in EVERY declaration order; non-trivial = at least two '
-                'substitutable references and two reference tokens; distinct by (stage, declaration order, pieces)')
+                'substitutable references and two reference tokens; distinct by (stage, declaration order, pieces); (c) contents '
+                'special to substitution mechanisms (backslashes, group references, & $ % {}): e.txt of every producer, stdout of two, '
+                'an input file - in the random sets and as a systematic family (every producer x every spelling); (d) sessions: '
+                'consumers with an :output reference (mostly to another stage / an input file) resolved 3-5 times on ONE live '
+                'graph through 4 entry points while the referenced files are rewritten / created / deleted / made a directory; '
+                'non-trivial = the expected answer changes at least once')
     cases = []
     for b in corpus():
         cases.extend(with_orders(b))
@@ -631,8 +919,14 @@ def run(ctx):
         n += 1
         cases.extend(with_orders(c))
     ctx.count('random_base_cases', nbase)
+    sp = special_contents_cases()
+    ctx.count('special_contents_cases', len(sp))
+    for b in sp:
+        cases.extend(with_orders(b))
     ctx.exhaustive = False
     explore(ctx, cases)
+    live = live_corpus() + [gen_live_case(rng) for _ in range(110 if ctx.tier == 'quick' else 700)]
+    explore_live(ctx, live)
     used = {}
     for c in cases:
         for r in c['declared']:
@@ -646,7 +940,10 @@ def replay(ctx, path):
     if not c or 'declared' not in c:
         print('replay file names no input (proof/correspondence obligation): re-run ./check C10')
         return 2
-    explore(ctx, [c])
+    if 'live' in c:
+        explore_live(ctx, [c])
+    else:
+        explore(ctx, [c])
     for f in ctx.failures:
         print('REPRODUCED: %s' % f['what'])
     for f in ctx.disagreements:
